@@ -78,6 +78,8 @@ func (tr treeResult) normalised(s string) string {
 	return strings.ReplaceAll(s, tr.Root, "<root>")
 }
 
+var loadsSoFar int
+
 // loadAndRender materialises the tree, loads it and renders the page.
 func loadAndRender(c *harness.Check, cs treeCase) treeResult {
 	var tr treeResult
@@ -88,8 +90,18 @@ func loadAndRender(c *harness.Check, cs treeCase) treeResult {
 	}
 	tr.Root = root
 	tr.Panic = c.Guard("json", mustJSON(cs), func() {
-		textwire.VerifReset()
-		tpl, err := textwire.NewTemplate(&config.Config{TemplateDir: cs.Dir, TemplateExt: cs.Ext})
+		// three loads in four start from the package's initial state; the fourth follows the
+		// previous case's load directly, as a second NewTemplate of a process does (another
+		// working directory, often the same relative directory name): a load is decided by
+		// its own configuration and the files it finds now
+		if loadsSoFar++; loadsSoFar%4 != 0 {
+			textwire.VerifReset()
+		}
+		conf := &config.Config{TemplateDir: cs.Dir, TemplateExt: cs.Ext}
+		tpl, err := textwire.NewTemplate(conf)
+		// the configuration is what was passed to the call: what the caller does with its
+		// own Config value afterwards is no input of later renders
+		conf.TemplateDir, conf.TemplateExt, conf.ErrorPagePath, conf.DebugMode = "zz/elsewhere", ".zz", "zz/error", true
 		if err != nil {
 			tr.LoadErr = err.Error()
 			if tpl != nil {
